@@ -907,6 +907,13 @@ func (F *frames) calleeOf(cc *ssa.CallCommon, fr *frame) (*ssa.Function, []fval)
 		return nil, nil
 	}
 	x := F.resolve(fval{v: cc.Value, fr: fr})
+	for i := 0; i < 4; i++ { // a function literal converted to a named function type
+		ct, isCT := x.v.(*ssa.ChangeType)
+		if !isCT {
+			break
+		}
+		x = F.resolve(fval{v: ct.X, fr: x.fr})
+	}
 	switch f := x.v.(type) {
 	case *ssa.Function:
 		return f, nil
@@ -1264,6 +1271,34 @@ func annotationWrites(prog *Prog, fn *ssa.Function, isObj func(ssa.Value) bool, 
 					continue
 				}
 				fieldStores = append(fieldStores, x)
+				if mm, isMM := x.Val.(*ssa.MakeMap); isMM {
+					// obj.Annotations = map[string]string{key: v, …}: a fresh map, filled before it is installed
+					var vals []ssa.Value
+					okLit := true
+					for _, rr := range refs(mm) {
+						switch y := rr.(type) {
+						case *ssa.MapUpdate:
+							if y.Map != ssa.Value(mm) || y.Block() != mm.Block() {
+								okLit = false
+							} else if s, isC := constString(y.Key); isC && s == key {
+								vals = append(vals, y.Value)
+							} else if !isC {
+								okLit = false // a key the rule cannot read may be this one
+							}
+						case *ssa.Store:
+							if y != x {
+								okLit = false
+							}
+						case *ssa.DebugRef:
+						default:
+							okLit = false
+						}
+					}
+					if okLit && len(vals) == 1 && mm.Block() == x.Block() {
+						ws = append(ws, annWrite{x, vals[0]})
+					}
+					continue
+				}
 				call, isCall := x.Val.(*ssa.Call)
 				if !isCall {
 					continue
@@ -1325,4 +1360,43 @@ func annotationWrites(prog *Prog, fn *ssa.Function, isObj func(ssa.Value) bool, 
 		}
 	}
 	return ws, lost
+}
+
+// metaFieldOwner: v reads the metadata field (Name, Namespace, …) of an object, as obj.<field>,
+// obj.ObjectMeta.<field> or obj.Get<field>(); the result is the value that stands for the object (a
+// pointer to it, however it was reached), nil when v is not such a read.
+func metaFieldOwner(v ssa.Value, field string) ssa.Value {
+	v = unwrap(v)
+	up := func(x ssa.Value) ssa.Value {
+		for {
+			fa, ok := x.(*ssa.FieldAddr)
+			if !ok || fieldName(fa) != "ObjectMeta" {
+				return x
+			}
+			x = fa.X
+		}
+	}
+	switch x := v.(type) {
+	case *ssa.Call:
+		if !strings.HasSuffix(calleeName(&x.Call), ".Get"+field) {
+			return nil
+		}
+		if x.Call.IsInvoke() {
+			if mi, ok := unwrap(x.Call.Value).(*ssa.MakeInterface); ok {
+				return mi.X
+			}
+			return unwrap(x.Call.Value)
+		}
+		if len(x.Call.Args) == 1 {
+			return up(x.Call.Args[0])
+		}
+	case *ssa.UnOp:
+		if x.Op != token.MUL {
+			return nil
+		}
+		if fa, ok := x.X.(*ssa.FieldAddr); ok && fieldName(fa) == field {
+			return up(fa.X)
+		}
+	}
+	return nil
 }
